@@ -11,6 +11,16 @@ RULE = ("the post family: valid instances carrying described and undescribed mem
         "more when the schema has no anyOf/oneOf); non-trivial = at least one member pruned, distinct by hash")
 
 
+SWITCH_FINDING = {
+    "requiredByDefault": "alternative-selected-through-required-default",
+    "floatTolerance": "alternative-selected-through-float-tolerance",
+    "nullSkipsComposition": "alternative-selected-through-null-early-exit",
+    "formatBypassesType": "alternative-selected-through-format-bypass",
+    "ignoresSchemaIdKeys": "alternative-selected-through-schema-id-exemption",
+    "leaksImportant": "alternative-selected-through-important-leak"
+}
+
+
 def correspond(ctx, C):
     n = 8000 if ctx.tier == "quick" else 150000
     if ctx.search:
@@ -18,6 +28,7 @@ def correspond(ctx, C):
     rows = C.run_family("post", n, ctx.seed + 19, ctx.tier, replay=S.replay_file(ctx, C))
     known = {f["id"] for f in S.known_for(C, "C19")}
     not_spec_valid, attributed = 0, 0
+    by_finding = {}
     viol, ties, distinct, samples, valid, pruned_n, idem = [], [], set(), [], 0, 0, 0
     for r in rows:
         c, g, m = r["case"], r["go"], r["m"] or {}
@@ -40,10 +51,18 @@ def correspond(ctx, C):
         if P.canon(m["pruned"]) != after:
             ties.append((c, {"what": "pruned data of the code differs from the model's (tie broken)", "go": after, "model": P.canon(m["pruned"])}))
         complaints = P.check_prune(P.applies_index(m), before, after)
-        if complaints and "C19-alternative-selected-through-required-default" in known \
-                and P.canon(m["pruned"]) == after and not P.check_prune(P.applies_index(m), before, P.canon(m["prunedReq"])):
-            attributed += 1
-            complaints = []
+        if complaints and P.canon(m["pruned"]) == after:
+            # the model of the code reproduces the answer: is it the consequence of one open C01 deviation (or of several)?
+            expl = [sw for sw, o in (m.get("bySwitch") or {}).items()
+                    if not P.check_prune(P.applies_index(m), before, P.canon(o["pruned"]))]
+            if not expl and not P.check_prune(P.applies_index(m), before, P.canon((m.get("repaired") or {}).get("pruned"))):
+                expl = list((m.get("bySwitch") or {}).keys())
+            ids = ["C19-" + SWITCH_FINDING[sw] for sw in expl if sw in SWITCH_FINDING]
+            if ids and all(i in known for i in ids):
+                attributed += 1
+                for i in ids:
+                    by_finding[i] = by_finding.get(i, 0) + 1
+                complaints = []
         if complaints:
             viol.append((c, {"what": "C19 violated: " + complaints[0], "all": complaints[:5], "pruned": after}))
         if not P.has_any_one_of(c["schema"]):
@@ -58,5 +77,5 @@ def correspond(ctx, C):
         out.append((case, dict(info, tie_cases=len(ties), no_failing_input=True)))
     cov = {"evaluations": len(rows), "distinct_nontrivial": len(distinct), "rule": RULE, "samples": samples,
            "traces_validated_against_impl": valid, "valid_instances": valid, "cases_with_members_pruned": pruned_n,
-           "idempotence_checked": idem, "tie_mismatches": len(ties)}
-    return {"coverage": cov, "violations": out, "known": []}
+           "idempotence_checked": idem, "tie_mismatches": len(ties), "attributed_by_finding": by_finding}
+    return {"coverage": cov, "violations": out, "known": P.known_lines(C, S, "C19", P.check_prune, "pruned")}
